@@ -1,5 +1,6 @@
 """C05 — a written .sol file is read back as the same solution."""
 import os, sys, subprocess, struct, math, random, re, json
+from fractions import Fraction
 from common import *
 sys.path.insert(0, os.path.join(VERIF, 'gen'))
 import solgen
@@ -140,11 +141,12 @@ def sol_line(cid, s, nvd, ncd):
     for kind, name, table, vals in set_order(s['sufs']):
         v = (reals(vals) if kind & 4 else ','.join(str(x) for x in vals)) or '-'
         sufs.append('%d:%s:%s:%s' % (kind, name.hex() or '-', table.hex() or '-', v))
-    # integral reals |x| < 10^15 (except -0.0): the token and the integer, for the tie of the text model `encIntegralReal` to the real writer
+    # integral reals of any size (except -0.0; all doubles >= 2^53 are integral): the '%.16g' token and the integer, for the sampled tie of the text model
+    # `fmtG16Int` (plain numeral below 10^16, scientific notation above); the token is the real writer's whenever the file bytes agree (checked per case)
     ints = []
     allreals = list(s['duals']) + list(s['primals']) + [v for k, _, _, vals in s['sufs'] if k & 4 for v in vals]
     for x in allreals:
-        if math.isfinite(x) and x == math.floor(x) and abs(x) < 1e15 and not (x == 0 and math.copysign(1, x) < 0):
+        if math.isfinite(x) and x == math.floor(x) and not (x == 0 and math.copysign(1, x) < 0):
             ints.append('%s:%d' % (fmt16(x).hex(), int(x)))
     return 'sol %s %d %d %d %s %s %d %d %s %s %d %d %s %s ints=%s' % (
         cid, C14.FX[0], nvd, ncd, s['msg'].hex() or '-', ','.join(map(str, s['options'])) or '-', s['ncons'], s['nvars'],
@@ -341,7 +343,7 @@ def run(ck):
         ck.add_violation('translator:sol-guards', 'the integer decisions / format strings of the SOL writer and reader could not be re-translated from the source: %s' % tr_err,
                          {'translator': 'translators/gen_solguards.py', 'output': tr_err}, found_input=False)
     proof_ok, failing = ck.proof_stage('MpVerif.C05.Props', 'MpVerif/C05/Props.lean', 'C05_',
-                                        ['MpVerif/C05/*.lean', 'MpVerif/C14/Model*.lean', 'MpVerif/C14/Lemmas*.lean', 'MpVerif/Gen/SolGuards.lean'], expect_min=26)
+                                        ['MpVerif/C05/*.lean', 'MpVerif/C14/Model*.lean', 'MpVerif/C14/Lemmas*.lean', 'MpVerif/Gen/SolGuards.lean'], expect_min=28)
     ck.log('proof stage: ok=%s failing=%s' % (proof_ok, failing[:12]))
     if ck.tier == 'thorough' and proof_ok:
         bad = ck.leanchecker(['MpVerif.C05.Props'])
@@ -382,6 +384,9 @@ def run(ck):
     n_reals = 0
     n_good = 0
     n_int = 0
+    n_int_big = 0
+    n_dec = [0, 0]
+    dec_expect = {}
     n_goodsuf = 0
     distinct = set()
     for k, ((s, nvd, ncd), il, ml) in enumerate(zip(cases, impl, model)):
@@ -403,8 +408,38 @@ def run(ck):
         if mi:
             mb = mb.replace(mi.group(0), ' ')
             n_int += int(mi.group(2))
+            n_int_big += sum(1 for x in s['duals'] + s['primals'] + [v for k5, _, _, vals in s['sufs'] if k5 & 4 for v in vals]
+                             if math.isfinite(x) and abs(x) >= 1e16)
             if mi.group(1) != mi.group(2):
-                corr_bad.append((cl, '', mb[:80], 'text model encIntegralReal differs from the token the writer prints for an integral real < 10^15: %s' % mi.group(0)))
+                ck.add_violation('text-model:fmtG16Int', 'the text model fmtG16Int of %%.16g differs from the token printed for an integral real: %s' % mi.group(0),
+                                 {'case': cl, 'model': mb[:200]})
+        md = re.search(r' dec=(\S+) ', mb)
+        if md:
+            mb = mb.replace(md.group(0), ' ')
+            decs = md.group(1).split(',') if md.group(1) != '-' else []
+            vals5 = s['duals'] + s['primals']
+            for x5, d5 in zip(vals5, decs):
+                tok5 = fmt16(x5).decode()
+                if not math.isfinite(x5):
+                    ok5 = d5 == 'x'
+                    want5 = None
+                elif d5 == 'x':
+                    ok5, want5 = False, None
+                else:
+                    m5, e5 = d5.split(':')
+                    fr = Fraction(int(m5)) * Fraction(10) ** int(e5)
+                    try:
+                        want5 = float(fr)          # correctly rounded (CPython big-integer division)
+                        if fr == 0 and tok5.startswith('-'):
+                            want5 = -0.0           # a rational has no signed zero: the sign of a zero is the text's leading '-'
+                    except OverflowError:
+                        want5 = math.inf if fr > 0 else -math.inf
+                    ok5 = struct.pack('<d', want5) == struct.pack('<d', float(tok5))
+                    dec_expect.setdefault(k, []).append(want5)
+                n_dec[0] += 1
+                if not ok5:
+                    ck.add_violation('text-model:parseDec', 'exact value model parseDec of the text %r gives %s, rounded %r; strtod gives %r' % (tok5, d5, want5, float(tok5)),
+                                     {'case': cl})
         mg = re.search(r' good=(\d+)/(\d+) goodsuf=(\d+)/(\d+) ', mb)
         mb = mb.replace(mg.group(0), ' ') if mg else mb
         if mg and mg.group(3) != mg.group(4):
@@ -430,6 +465,21 @@ def run(ck):
             exp, tag = 'cannot interpret model line: %r' % (e,), None
         if tag is None and exp != ib.split(' ')[0] + ' ' + ir:
             corr_bad.append((cl, ir[:400], exp[:400], 'events read by mp::ReadSOLFile differ from readSol on the same bytes'))
+        # sampled tie of the exact-value model to the real strtod: the double the real reader delivered = the correctly rounded value of parseDec(text)
+        exp5 = dec_expect.get(k)
+        if exp5 is not None and ib == mb and side_conditions(s) is None and all(math.isfinite(x) for x in s['duals'] + s['primals']):
+            got5 = []
+            for e5 in ir.partition(' | ')[2].split(' ; '):
+                p5 = e5.split(' ')
+                if p5[0] in ('dual', 'primal') and len(p5) >= 5 and p5[2] == 'OK' and p5[4] != '-':
+                    got5 += [undo_R(v) for v in p5[4].split(',')]
+            if len(got5) == len(exp5):
+                n_dec[1] += len(got5)
+                for a5, b5 in zip(exp5, got5):
+                    if struct.pack('<d', a5) != struct.pack('<d', b5):
+                        ck.add_violation('text-model:parseDec-vs-reader', 'the real reader delivered %r for a text whose exact value (parseDec) rounds to %r' % (b5, a5),
+                                         {'case': cl, 'impl': il[:2000]})
+                        break
         # the property itself on what the real code did
         bad = oracle(s, il, nvd, ncd)
         sc = side_conditions(s)
@@ -472,7 +522,7 @@ def run(ck):
                 'mp::ReadSOLFile; distinct = distinct event lists read back; compared with writeSol/readSol of the Lean model (bytes and events) and with the intent',
         'traces_validated_against_impl': len(cases) - len(corr_bad),
         'generator_families': fam, 'files_bytes_equal_model': n_bytes_equal, 'roundtrip_ok': n_roundtrip_ok, 'failure_classes': classes,
-        'reals_in_vectors': n_reals, 'reals_satisfying_GoodNum_hypothesis': n_good, 'integral_reals_matching_text_model': n_int, 'suffix_reals_satisfying_GoodSufTok_hypothesis': n_goodsuf,
+        'reals_in_vectors': n_reals, 'reals_satisfying_GoodNum_hypothesis': n_good, 'integral_reals_matching_text_model_fmtG16Int': n_int, 'of_which_at_least_1e16_scientific_notation': n_int_big, 'vector_texts_with_parseDec_value_rounding_to_strtod_result': n_dec[0], 'of_which_compared_with_the_double_the_real_reader_delivered': n_dec[1], 'suffix_reals_satisfying_GoodSufTok_hypothesis': n_goodsuf,
         'codec_test': {'label': 'TEST (not proved): fmt {:.16} -> strtod/decstring on doubles', 'doubles': int(m.group(1)) if m else 0, 'bad': int(m.group(2)) if m else None},
         'correspondence': {'lines_compared_model_vs_impl': len(cases), 'disagreements': len(corr_bad)}, 'exhaustive': False,
         
